@@ -350,8 +350,12 @@ def check_seam_b(res, sig, kind, shapes, uniq):
     from statemachine.factory import StateMachineMetaclass
     fn = make_callable(sig, kind if kind != "method" else "function", uniq)
     params = list(inspect.signature(fn).parameters.values())
-    a, b = State(initial=True), State()
-    ns = {"a": a, "b": b, "go": a.to(b, on=fn) | b.to(a, on=fn)}
+    a, b, c = State(initial=True), State(), State()
+    # a first candidate that is always rejected by its guard: the built-ins handed to the
+    # callback of the second candidate describe the second candidate
+    ns = {"a": a, "b": b, "c": c, "never": False,
+          "go": a.to(c, cond="never") | a.to(b, on=fn) | b.to(c, cond="never") | b.to(a, on=fn),
+          "rest": c.to(a)}
     try:
         cls = StateMachineMetaclass("M7", (StateMachine,), ns)
         sm = cls()
@@ -379,7 +383,7 @@ def check_seam_b(res, sig, kind, shapes, uniq):
             for p in params:
                 if p.name == "event_data":
                     ed = got.get("event_data")
-        tr = [t for t in src.transitions][0]
+        tr = [t for t in src.transitions if t.target.id != "c"][0]
         built = {"machine": sm, "model": sm.model, "transition": tr, "state": src, "source": src,
                  "target": tr.target, "event": "go"}
         real.update(built)
